@@ -8,13 +8,13 @@ dst=/verif/seeded/$pid-$n
 [ -d "$WT" ] || git -C /repo worktree add -q --detach "$WT" main
 git -C "$WT" checkout -q --detach main; git -C "$WT" reset -q --hard
 cd "$WT"
-demo_before=$(timeout 600 /venv/bin/python $src/demo.py >/tmp/conf-$pid-$n.before 2>&1; echo $?)
+demo_before=$(PYTHONPATH=$WT timeout 600 /venv/bin/python $src/demo.py >/tmp/conf-$pid-$n.before 2>&1; echo $?)
 if git apply --3way "$src/patch.diff" 2>/tmp/conf-$pid-$n.apply || git apply "$src/patch.diff" 2>>/tmp/conf-$pid-$n.apply; then applied=yes; else applied=no; fi
 git reset -q 2>/dev/null
 tests=none; demo_after=none
 if [ $applied = yes ]; then
   tests=$(timeout 2400 /venv/bin/python -m pytest -q -p no:cacheprovider --timeout=900 --continue-on-collection-errors 2>&1 | tail -1)
-  demo_after=$(timeout 600 /venv/bin/python $src/demo.py >/tmp/conf-$pid-$n.after 2>&1; echo $?)
+  demo_after=$(PYTHONPATH=$WT timeout 600 /venv/bin/python $src/demo.py >/tmp/conf-$pid-$n.after 2>&1; echo $?)
   mkdir -p $dst
   git diff > $dst/patch.diff
   cp $src/demo.py $dst/demo.py; [ -f $src/notes.md ] && cp $src/notes.md $dst/notes.md
